@@ -1229,6 +1229,26 @@ class C28(Prop):
         from ufl.algorithms.map_integrands import map_integrands
         from ufl.classes import (Cofunction, Matrix, Coefficient, ZeroBaseForm, Zero, Product, ScalarValue, BaseForm, Expr)
         reqs, meta, fails = [], [], []
+        # directed: a sum whose FIRST component (weight 1) vanishes under the map and whose single survivor has another weight
+        from ufl.classes import FormSum as _FS
+        ndir = 0
+        for (k, W, d, o) in cases[:: max(1, len(cases) // 40)]:
+            rngd = random.Random(ctx.seed * 911 + k)
+            try:
+                i = rngd.randrange(3)
+                cA, cB, cC = W.cofunction(i), W.cofunction(i), W.cofunction(i)
+                for wgt in (3, -2, 0.5):
+                    for S, dead in ((_FS((cA, 1), (cB, wgt)), {cA.count()}), (_FS((cA, 1), (cB, wgt), (cC, 1)), {cA.count(), cC.count()}),
+                                    (_FS((cB, wgt), (cA, 1)), {cA.count()})):
+                        mS = map_integrands(lambda x, dead=dead: ZeroBaseForm(x.arguments()) if (isinstance(x, Cofunction) and x.count() in dead) else x, S)
+                        a_, b_ = W.assemble_obj(mS, np), wgt * W.assemble_obj(cB, np)
+                        ndir += 1
+                        if not same_tensor(a_, b_, np):
+                            self.bad.append(("map_integrands over a sum whose other components vanish: the survivor lost or changed its weight %s" % wgt,
+                                             dict(kind="map-integrands-survivor-weight", desc="FormSum((cA,1),(cB,%s)) with cA mapped to zero" % wgt, wire="")))
+            except Exception:  # noqa
+                continue
+        ev.cov["map_integrands_directed_survivor_checks"] = ndir
         for (k, W, d, o) in cases:
             rng = random.Random(ctx.seed * 7001 + k * 13 + 28)
             self.map_origins = getattr(self, "map_origins", {})
@@ -1237,6 +1257,14 @@ class C28(Prop):
             leafm = sorted({x.count() for x in walk_obj(o) if isinstance(x, Matrix)})
             zc = [c for c in leafc if rng.random() < 0.25]
             zm = [c for c in leafm if rng.random() < 0.3]
+            if k % 2 == 1:
+                # everything vanishes except ONE leaf: sums collapse to a single surviving component, which must keep ITS weight
+                pool_ = [("a", at["id"]) for at in W.atoms] + [("c", c) for c in leafc] + [("m", c) for c in leafm]
+                if pool_:
+                    keep = rng.choice(pool_)
+                    zat = [at["id"] for at in W.atoms if ("a", at["id"]) != keep]
+                    zc = [c for c in leafc if ("c", c) != keep]
+                    zm = [c for c in leafm if ("m", c) != keep]
             keys = {at["id"]: at for at in W.atoms}
 
             def fn(x, W=W, zat=zat, zc=zc, zm=zm):
